@@ -143,7 +143,7 @@ def d4(chk, prog, ploidies):
         W.reset()
         it = Interp(prog, model)
         rows = [{"chromosome": chrom(c, "chr"), "start": Term.sym("s"), "end": Term.sym("e"), "gene": "g", "log2": Term.sym(f"v_{c}")} for c in CLS5]
-        g = make_ga("CopyNumArray", rows, {"_classes": CLS5, "sample_id": "S"})
+        g = make_ga("CopyNumArray", rows, {"_classes": CLS5, "sample_id": "S"}, index="any")
         out = tb.guard(lambda: it.run(fi.qn, [g, None, "clonal", P, purity_val(), hap, fem, par, None]), f"P={P}")
         if out is None:
             continue
@@ -167,7 +167,7 @@ def d4(chk, prog, ploidies):
             W.exp2_subst[v.key()] = t_div(t_add(t_mul(p.sym, n_), t_mul(t_sub(Term.const(1), p.sym), T(x))), T(r))
             ns.append(n_)
             rows.append({"chromosome": chrom(c, "chr"), "start": Term.sym("s"), "end": Term.sym("e"), "gene": "g", "log2": v})
-        g = make_ga("CopyNumArray", rows, {"_classes": classes, "sample_id": "S"})
+        g = make_ga("CopyNumArray", rows, {"_classes": classes, "sample_id": "S"}, index="any")
         out = tb2.guard(lambda: it.run(fi.qn, [g, None, "clonal", P, p, hap, fem, par, None]), f"P={P}")
         if out is None:
             continue
@@ -188,7 +188,7 @@ def d4(chk, prog, ploidies):
         it = Interp(prog, model)
         cl = ["auto", "x", "y"]
         rows = [{"chromosome": chrom(c, style), "start": Term.sym("s"), "end": Term.sym("e"), "gene": "g", "log2": Term.sym(f"v_{c}")} for c in cl]
-        g = make_ga("CopyNumArray", rows, {"_classes": cl, "sample_id": "S"})
+        g = make_ga("CopyNumArray", rows, {"_classes": cl, "sample_id": "S"}, index="any")
         pv = pur
         out = tb3.guard(lambda: it.run(fi.qn, [g, None, "clonal", P, pv, hap, False, None, None]), f"P={P}")
         if out is None:
